@@ -242,6 +242,8 @@ def c04_4(ctx: Ctx) -> RuleResult:
         for p in f.params:
             if "failed" in p:
                 failed = ("param", f.qualname, p)
+        if failed is None:
+            raise AnalysisError(f"{f.name}: the ranking kernel has no failure-flags parameter")
         vals = ("param", f.qualname, f.positional[0])
         ref = ("sub", call("numpy.argsort", call("numpy.where", failed, G("numpy.nan"), vals)),
                ("slice", C(None), call("numpy.count_nonzero", ("unary", "~", failed)), C(None)))
